@@ -1,4 +1,5 @@
 import Cuckoo.Props.C02
+import Cuckoo.Proofs.Consumed
 /-!
 # C16 — arguments are consumed only on success; compatible key types find the same item
 
@@ -19,14 +20,22 @@ theorem duplicate_leaves_args (c : Cfg κ) (locked : Bool) (t : Table κ ν) (m 
     (ctxAware mayErase : Bool) (fn : Ctx → ν → FnOut ν) (h : Inv c t) (hr : Rel c t m) (hl : locked = true → AllMig t)
     (hk : m.lookup k = some old) :
     (t.uprase c locked k v ctxAware mayErase fn).2.1.consumed = false := by
-  sorry
+  rcases Consumed.uprase_cases c locked t m k v ctxAware mayErase fn h hr hl with ⟨h1, _⟩ | ⟨_, h2, _⟩ | ⟨_, h2⟩
+  · rw [hk] at h1; cases h1
+  · exact h2
+  · exact h2
 
 /-- a call that fails before inserting (refused or failed expansion) leaves its arguments unconsumed -/
 theorem failed_insert_leaves_args (c : Cfg κ) (locked : Bool) (t : Table κ ν) (m : AMap κ ν) (k : κ) (v : ν)
     (ctxAware mayErase : Bool) (fn : Ctx → ν → FnOut ν) (h : Inv c t) (hr : Rel c t m) (hl : locked = true → AllMig t)
     (e : Err) (he : (t.uprase c locked k v ctxAware mayErase fn).2.1.res = .err e) (hne : e ≠ .fnThrow) :
     (t.uprase c locked k v ctxAware mayErase fn).2.1.consumed = false := by
-  sorry
+  rcases Consumed.uprase_cases c locked t m k v ctxAware mayErase fn h hr hl with
+    ⟨_, _, h3 | h3, _⟩ | ⟨_, h2, _⟩ | ⟨_, h2⟩
+  · rw [he] at h3; cases h3
+  · rw [he] at h3; cases h3; exact absurd rfl hne
+  · exact h2
+  · exact h2
 
 /-- a call that inserts consumes its arguments (once: the flag is set by the single `add_to_bucket`), and the stored
 pair is built from exactly those arguments -/
@@ -35,13 +44,25 @@ theorem insert_consumes_args (c : Cfg κ) (locked : Bool) (t : Table κ ν) (m :
     (hok : (t.uprase c locked k v false false (fun _ x => .ret x false)).2.1.res = .ok true) :
     (t.uprase c locked k v false false (fun _ x => .ret x false)).2.1.consumed = true ∧
     Rel c (t.uprase c locked k v false false (fun _ x => .ret x false)).1 (m.add k v) := by
-  sorry
+  rcases Consumed.uprase_cases c locked t m k v false false (fun _ x => .ret x false) h hr hl with
+    ⟨_, h2, _, h4⟩ | ⟨⟨old, h1⟩, _⟩ | ⟨⟨e, h1, _⟩, _⟩
+  · exact ⟨h2, (h4 rfl).2⟩
+  · rw [hk] at h1; cases h1
+  · rw [hok] at h1; cases h1
 
 /-- consumed iff newly inserted, for every successful call -/
 theorem consumed_iff_inserted (c : Cfg κ) (locked : Bool) (t : Table κ ν) (m : AMap κ ν) (k : κ) (v : ν)
     (ctxAware mayErase : Bool) (fn : Ctx → ν → FnOut ν) (h : Inv c t) (hr : Rel c t m) (hl : locked = true → AllMig t)
     (b : Bool) (hok : (t.uprase c locked k v ctxAware mayErase fn).2.1.res = .ok b) :
     (t.uprase c locked k v ctxAware mayErase fn).2.1.consumed = b ∧ b = (m.lookup k).isNone := by
-  sorry
+  rcases Consumed.uprase_cases c locked t m k v ctxAware mayErase fn h hr hl with
+    ⟨h1, h2, h3 | h3, _⟩ | ⟨⟨old, h1⟩, h2, h3 | h3⟩ | ⟨⟨e, h1, _⟩, _⟩
+  · rw [hok] at h3; cases h3
+    exact ⟨h2, by rw [h1]; rfl⟩
+  · rw [hok] at h3; cases h3
+  · rw [hok] at h3; cases h3
+    exact ⟨h2, by rw [h1]; rfl⟩
+  · rw [hok] at h3; cases h3
+  · rw [hok] at h1; cases h1
 
 end Cuckoo.Props.C16
